@@ -33,7 +33,7 @@ MSS = 512
 
 def prepare(ctx):
     from py2lean import translate
-    translate.regenerate_all()
+    translate.regenerate_all(only=('TcpCC',))
 
 
 # ---- sink ---------------------------------------------------------------------------------------------------
